@@ -470,6 +470,28 @@ pub fn c01(c: &mut Ctx) {
                 run_ctor(c, i, x, y);
             }
         }
+        // constructor results at the very top / bottom of the exponent range (operands themselves in range):
+        // products just below overflow, sums just below f64::MAX, products / quotients at the 2^-960 proviso
+        {
+            let e1 = c.rng.range(24, 999);
+            let x = mk(c.rng.coin(), e1, mant_any(&mut c.rng));
+            let top = pk!(c.rng, [1023i64, 1022, 1021]);
+            let y = mk(c.rng.coin(), (top - e1).clamp(-1000, 999), mant_any(&mut c.rng));
+            run_ctor(c, 2, x, y);
+            run_ctor(c, 2, y, x);
+            let z = mk(c.rng.coin(), (e1 - top).clamp(-1000, 999), mant_any(&mut c.rng));
+            run_ctor(c, 3, x, z);
+            let e2 = c.rng.range(-940, -20);
+            let u = mk(c.rng.coin(), e2, mant_any(&mut c.rng));
+            let v = mk(c.rng.coin(), (-958 - e2).clamp(-1000, 999), mant_any(&mut c.rng));
+            run_ctor(c, 2, u, v);
+            let big = mk(c.rng.coin(), 999, mant_any(&mut c.rng));
+            let b1 = mk(c.rng.coin(), 999, mant_any(&mut c.rng));
+            let b2 = mk(c.rng.coin(), 998, mant_any(&mut c.rng));
+            run_ctor(c, 0, big, b1);
+            run_ctor(c, 1, big, b2);
+            c.count("extreme_constructor_cases");
+        }
         run_int(c);
         run_tryfrom(c);
         run_tryfrom(c);
